@@ -415,5 +415,51 @@ pub fn run(tier: Tier, seed: u64) -> i32 {
         });
         rep.add(b);
     }
+    // a file found by lookup (not the handle its creation returned) at every slot position of a directory cluster -
+    // among them the last slot of a cluster and the first of the next - is extended and flushed: the entry the flush
+    // hands over must be the one a remount finds (seeded change c14r10a: the position a lookup computes for the last
+    // slot of a cluster)
+    if !rep.failed() {
+        let vols: Vec<crate::vol::VolCfg> = [1usize, 8, 12].iter().map(|p| crate::vol::VolCfg::from_preset(*p)).collect();
+        let per_vol: Vec<u32> = vols.iter().map(|v| (v.cluster_size() / 64 + 3).min(if tier == Tier::Thorough { 140 } else { 40 })).collect();
+        let total: u32 = per_vol.iter().sum::<u32>() * 2;
+        let b = run::run_indexed("file_found_by_lookup_at_every_slot_position_of_a_directory_cluster", total as u64, |i, blk| {
+            let in_root = i % 2 == 1;
+            let mut n = (i / 2) as u32;
+            let mut vi = 0usize;
+            while n >= per_vol[vi] {
+                n -= per_vol[vi];
+                vi += 1;
+            }
+            let v = &vols[vi];
+            let cs = v.cluster_size();
+            let pre = if in_root { "" } else { "d/" };
+            let mut ops = Vec::new();
+            if !in_root {
+                ops.push(Op::CreateDir { via: 0, path: "d".into(), keep: 0 });
+            }
+            for j in 0..n {
+                ops.push(Op::CreateFile { via: 0, path: format!("{}f{:03}.txt", pre, j), keep: 0 });
+            }
+            ops.extend([
+                Op::CreateFile { via: 0, path: format!("{}target.bin", pre), keep: 0 },
+                Op::OpenFile { via: 0, path: format!("{}target.bin", pre), keep: 1 },
+                Op::Write { h: 0, len: cs, seed: 1 },
+                Op::Write { h: 0, len: 21, seed: 2 },
+                Op::Flush { h: 0 },
+                Op::CreateFile { via: 0, path: "later.txt".into(), keep: 2 },
+                Op::Write { h: 1, len: 30, seed: 3 },
+                Op::CloseFile { h: 1 },
+                Op::CloseFile { h: 0 },
+            ]);
+            let case = Case { vol: v.clone(), ops };
+            let mut out = eval(&case);
+            out.nontrivial = out.classes.get("flush_points").copied().unwrap_or(0) > 0;
+            out.hash = run::hash_str(&format!("slotpos|{}|{}|{}", vi, n, in_root));
+            blk.record(&out, || serde_json::json!({"vol": v, "files_in_front": n, "in_root": in_root}));
+            out.violation.map(|m| Failure { message: format!("{} files in front of the target in {}: {}", n, if in_root { "the root" } else { "a subdirectory" }, m), case: serde_json::to_value(&case).unwrap(), kind: "crash".into() })
+        });
+        rep.add(b);
+    }
     rep.finish()
 }
